@@ -1,0 +1,28 @@
+//! Verification-only accessors (compiled only with `--cfg curve25519_dalek_verif`).
+//!
+//! Nothing here changes library behaviour; it lets an external deterministic
+//! simulator observe the internal representation of points.
+
+use crate::edwards::EdwardsPoint;
+use crate::ristretto::RistrettoPoint;
+
+/// Canonical 32-byte encodings of the extended coordinates `(X, Y, Z, T)`.
+pub fn edwards_coords(p: &EdwardsPoint) -> [[u8; 32]; 4] {
+    [
+        p.X.as_bytes(),
+        p.Y.as_bytes(),
+        p.Z.as_bytes(),
+        p.T.as_bytes(),
+    ]
+}
+
+/// The internal Edwards representative of a Ristretto point.
+pub fn ristretto_inner(p: &RistrettoPoint) -> EdwardsPoint {
+    p.0
+}
+
+/// Wrap an Edwards point as a Ristretto point. The caller guarantees the
+/// point is in the image of doubling (`2E`), which is the type's invariant.
+pub fn ristretto_from_edwards(p: EdwardsPoint) -> RistrettoPoint {
+    RistrettoPoint(p)
+}
